@@ -112,6 +112,89 @@ def gen_layout_knobs(l, fixedlike=None, placed=None):
     return l
 
 
+def force_partial(l, b, runs):
+    """make payload block `b` of the differencing layer `l` PARTIALLY_PRESENT with the per-sector presence `runs`
+    ([[type, count], ...], type 1 = in this file, covering the whole block); the block gets a payload slot if it had none"""
+    spb = l["bs"] // l["ss"]
+    assert l["has_parent"] and sum(k for _, k in runs) == spb
+    l["blocks"][b] = 7
+    l["bitmaps"][str(b)] = [list(x) for x in runs]
+    if str(b) not in l["phys"]:
+        l["phys"][str(b)] = max(l["phys"].values(), default=-1) + 1
+    return l
+
+
+def runs_pattern(spb, lens, first=0):
+    """presence runs over a block of `spb` sectors: run lengths cycle through `lens`, types alternate starting with `first`"""
+    runs, pos, cur, i = [], 0, first, 0
+    while pos < spb:
+        k = min(lens[i % len(lens)], spb - pos)
+        runs.append([cur, k])
+        pos, cur, i = pos + k, cur ^ 1, i + 1
+    return runs
+
+
+def gen_diff_recipe(rng: random.Random, tier="quick", depth=2, ss=None, shape=0):
+    """A differencing chain (no huge blocks, parent named by relative path) in which the top layer — and, from depth 3 on, the
+    layer below it, at the same guest offset — is guaranteed to hold PARTIALLY_PRESENT blocks; `shape` picks the explicit bitmap
+    of the forced block: runs that change inside bitmap bytes (1..9 sectors), whole-byte runs, a single sector present / absent
+    at an odd position, long runs with an odd phase."""
+    while True:
+        r = gen_recipe(rng, tier, depth=depth)
+        if ss is None or r["layers"][0]["ss"] == ss:
+            break
+    shapes = [[1, 2, 3, 5, 7, 9, 4], [8, 8, 16, 8], [3, 1, 100, 1, 5, 1], [13, 64, 29, 640], [7, 9], [1]]
+    top = r["layers"][-1]
+    target = (shape % len(top["blocks"])) * top["bs"]
+    for k, l in enumerate(r["layers"]):
+        l["locator"] = "relative"
+        if k == 0 or k < len(r["layers"]) - 2:
+            continue
+        spb = l["bs"] // l["ss"]
+        b = min(target // l["bs"], len(l["blocks"]) - 1)
+        lens = shapes[(shape + k) % len(shapes)]
+        force_partial(l, b, runs_pattern(spb, lens, first=(shape + k) & 1))
+    return r
+
+
+def gen_sector_queries(rng: random.Random, r, n):
+    """["S", sector, count] = read_sectors(sector, count) on the top layer: start sectors that are NOT a multiple of eight (the
+    per-sector bitmap is addressed by bytes of eight sectors) inside and right in front of partially-present blocks of any layer,
+    counts around the byte size (1, 7, 8, 9, 15, 16, 17 ...), a whole block, into the next block; always inside the disk."""
+    top = r["layers"][-1]
+    ss = top["ss"]
+    nsec = top["size"] // ss
+    starts = []
+    for l in r["layers"]:
+        spb = l["bs"] // ss
+        for b, st in enumerate(l["blocks"]):
+            if st == 7:
+                chg, pos = [], 0
+                for _, k in l["bitmaps"][str(b)][:40]:
+                    pos += k
+                    chg.append(pos)
+                starts.append((b * spb, spb, chg))
+    qs = []
+    for i in range(n):
+        if starts:
+            base, spb, chg = starts[i % len(starts)]
+            off = rng.choice([rng.randrange(1, 8), rng.randrange(1, 8), 8 + rng.randrange(1, 8), rng.choice(chg), rng.choice(chg) - 1, spb - rng.randrange(1, 20),
+                              rng.randrange(spb), -rng.randrange(1, 8)])
+            s0 = max(0, base + off)
+        else:
+            s0 = rng.randrange(max(1, nsec))
+        if i % 3 != 2 and s0 % 8 == 0:
+            s0 += rng.randrange(1, 8)
+        s0 = min(s0, max(0, nsec - 1))
+        c = rng.choice([1, 2, 3, 7, 8, 9, 15, 16, 17, 31, 33, 64, 129, rng.randrange(1, 300), (8 - s0 % 8) % 8 + 1, 16 - s0 % 8 + 1])
+        if i % 7 == 6:
+            c = (top["bs"] // ss) + rng.randrange(0, 20)
+        c = max(1, min(c, nsec - s0, 4096 if ss == 512 else 512))
+        if nsec > 0:
+            qs.append(["S", s0, c])
+    return qs
+
+
 def _gen_layer_base(rng, size, bs, ss, has_parent, seed, blocks, phys, bitmaps):
     return {"size": size, "bs": bs, "ss": ss, "has_parent": has_parent, "blocks": blocks, "phys": phys, "bitmaps": bitmaps,
             "seed": seed, "meta_order": rng.sample(range(6), 6), "region_swap": rng.random() < 0.5,
